@@ -107,7 +107,9 @@ TypeDef(name, vis, fields) ==
    vft |-> NoVft, fields |-> fields]
 
 (* val : a symbolic integer, NumNone when no value is written              *)
-Variant(name, val, dflt) == [name |-> name, val |-> val, dflt |-> dflt, doc |-> <<>>]
+(* raw: a value written as something else than an integer literal (an identifier, a string), as text *)
+Variant(name, val, dflt) == [name |-> name, val |-> val, dflt |-> dflt, doc |-> <<>>, raw |-> ""]
+HasRawValue(vs) == \E i \in DOMAIN vs : "raw" \in DOMAIN vs[i] /\ vs[i].raw # ""
 EnumDef(name, vis, base, vars) ==
   [k |-> "enum", name |-> name, vis |-> vis, doc |-> <<>>, base |-> base,
    vars |-> vars, singleton |-> None,
